@@ -9,6 +9,7 @@ import PycfModel.Model.IamCond
 import PycfModel.Model.Net
 import PycfModel.Model.Policy
 import PycfModel.Model.Discover
+import PycfModel.Model.Cast
 import PycfModel.Generated.Net
 /-
 Line protocol driver: one JSON operation per input line, one JSON result per output line.
@@ -167,6 +168,64 @@ partial def tvOf (j : Json) : Except String Discover.TV := do
     | _ => .error s!"bad typed value {j.compress}"
   | _ => .error s!"bad typed value {j.compress}"
 
+structure EngineRow where
+  json : Option J := none
+  bool : Option Bool := none
+  int : Option Int := none
+  date : Option String := none
+  datetime : Option String := none
+  ip4 : Option String := none
+  ip6 : Option String := none
+  list : Option (List J) := none
+
+def optStr (j : Json) (k : String) : Option String :=
+  match j.getObjVal? k with | .ok (.str s) => some s | _ => none
+
+def engineOf (j : Json) : Except String Cast.Engine := do
+  let rows ← match j.getObjVal? "strings" with
+    | .ok (.arr rs) => rs.toList.mapM fun r => match r with
+      | .arr #[.str s, row] => do
+        let js ← match row.getObjVal? "json" with | .ok v => some <$> toJ v | _ => pure none
+        let li ← match row.getObjVal? "list" with
+          | .ok (.arr xs) => some <$> xs.toList.mapM toJ
+          | _ => pure none
+        pure (s, ({ json := js,
+                    bool := (match row.getObjVal? "bool" with | .ok (.bool b) => some b | _ => none),
+                    int := (match row.getObjVal? "int" with | .ok (.str t) => t.toInt? | _ => none),
+                    date := optStr row "date", datetime := optStr row "datetime",
+                    ip4 := optStr row "ip4", ip6 := optStr row "ip6", list := li } : EngineRow))
+      | _ => .error "bad engine row"
+    | _ => .error "engine.strings missing"
+  let floats ← match j.getObjVal? "floats" with
+    | .ok (.arr fs) => pure (fs.toList.filterMap fun f => match f with
+        | .arr #[.str r, .str i] => i.toInt?.map fun n => (r, n)
+        | _ => none)
+    | _ => pure []
+  let objects ← match j.getObjVal? "objects" with
+    | .ok (.arr os) => os.toList.mapM fun o => match o with
+        | .arr #[v, .str cls] => do pure (← toJ v, cls)
+        | _ => .error "bad engine object"
+    | _ => pure []
+  let row (s : String) : EngineRow := (J.lookup s rows).getD {}
+  pure { jsonLoads := fun s => (row s).json, boolOf := fun s => (row s).bool, intOf := fun s => (row s).int,
+         dateOf := fun s => (row s).date, datetimeOf := fun s => (row s).datetime,
+         ip4Of := fun s => (row s).ip4, ip6Of := fun s => (row s).ip6,
+         floatInt := fun r => J.lookup r floats,
+         propertyModel := fun v => (objects.find? fun o => o.1 == v).map (·.2),
+         listUnion := fun s => (row s).list }
+
+partial def cvJson : Cast.CV → Json
+  | .null => .null
+  | .bool b => .bool b
+  | .int i => .num ⟨i, 0⟩
+  | .num r => Json.mkObj [("f", .str r)]
+  | .str s => .str s
+  | .typed k p => Json.mkObj [("l", .arr #[.str k, .str p])]
+  | .list xs => .arr (xs.map cvJson).toArray
+  | .generic fs => Json.mkObj [("o", .arr (fs.map fun (k, v) => .arr #[.str k, cvJson v]).toArray)]
+  | .model cls _ => Json.mkObj [("model", .str cls)]
+  | .fn _ => Json.mkObj [("fn", .bool true)]
+
 def outside : Json := Json.mkObj [("outside_domain", .bool true)]
 
 def runOp (j : Json) : Except String Json := do
@@ -269,6 +328,22 @@ def runOp (j : Json) : Except String Json := do
       pure (Json.mkObj [("found", .arr (found.map fun f =>
         Json.arr #[match f.name with | some n => .str n | none => .null, .num ⟨f.id, 0⟩]).toArray)])
     | _ => .error "fields must be a generic node"
+  | "cast" =>
+    let e ← engineOf (← (j.getObjVal? "engine"))
+    let v ← getJ j "value"
+    let fuel := match j.getObjVal? "fuel" with | .ok (.num n) => n.mantissa.toNat | _ => 8
+    -- every string of the engine table whose chosen conversion is not faithful
+    let names ← match (← (j.getObjVal? "engine")).getObjVal? "strings" with
+      | .ok (.arr rs) => pure (rs.toList.filterMap fun r => match r with | .arr #[.str s, _] => some s | _ => none)
+      | _ => pure []
+    let unsound := names.filterMap fun s =>
+      let c := Cast.scalarUnion e s
+      if Cast.leafSound s c then none else some (Json.arr #[.str s, cvJson c])
+    let badLists := names.filterMap fun s =>
+      match e.jsonLoads s, e.listUnion s with
+      | some (.arr xs), some ys => if Cast.elemsSound e xs ys then none else some (Json.str s)
+      | _, _ => none
+    pure (Json.mkObj [("cv", cvJson (Cast.cast e fuel v)), ("unsound", .arr unsound.toArray), ("unsound_lists", .arr badLists.toArray)])
   | "tokens" =>
     let t ← getStr j "text"
     let toks := Resolver.tokens t.toList
